@@ -183,12 +183,20 @@ def impl_sim(case):
             tapes = None
         gens.append(dict(chroms=g["chroms"], cmEnd=[int(round(e[1])) for e in g["end_coords"]], endBp=[e[0] for e in g["end_coords"]], prev=g["prev"], prev_after=g["prev_after"], children=g["children"], calls=calls, calls_complete=complete, tapes=tapes))
     _last[C.jdump(case)] = gens
-    return {"gens": [dict(children=g["children"], calls=[[c[:6] for c in cs] for cs in g["calls"]]) for g in gens]}
+    return {"gens": [dict(children=g["children"], calls=[[c[:6] for c in cs] for cs in g["calls"]]) for g in gens], "all": [g["children"] for g in gens] if _chainable(gens) else None}
+
+
+def _chainable(gens):
+    return bool(gens) and all(g["tapes"] is not None for g in gens)
 
 
 def model_req_sim(case):
     gens = _last.get(C.jdump(case)) or []
-    return {"op": "batch", "reqs": [dict(op="simGen", chroms=g["chroms"], cmEnd=g["cmEnd"], prev=g["prev"], samples=g["tapes"] or []) for g in gens]}
+    reqs = [dict(op="simGen", chroms=g["chroms"], cmEnd=g["cmEnd"], prev=g["prev"], samples=g["tapes"] or []) for g in gens]
+    if _chainable(gens):
+        # the whole run inside the model: every generation from the model's own previous one (Plan.simulateAll)
+        reqs.append(dict(op="simAll", chroms=gens[0]["chroms"], cmEnd=gens[0]["cmEnd"], gens=[g["tapes"] for g in gens]))
+    return {"op": "batch", "reqs": reqs}
 
 
 def model_obs_sim(case, resp):
@@ -199,7 +207,7 @@ def model_obs_sim(case, resp):
         for smp, tp in zip(r["samples"], g["tapes"] or []):
             calls.append([[tp["pop"], tp["haps"][c[4]], g["chroms"][c[0]], c[1], c[2], float(c[3])] for c in smp["plan"]])
         out.append(dict(children=[s["child"] for s in r["samples"]], calls=calls))
-    return {"gens": out}
+    return {"gens": out, "all": resp["resps"][len(gens)]["gens"] if _chainable(gens) else None}
 
 
 def oracle_sim(case, obs):
@@ -207,6 +215,8 @@ def oracle_sim(case, obs):
         return f"simulate_gt raised {obs} on a valid model"
     gens = _last.get(C.jdump(case))
     for gi, g in enumerate(gens):
+        if gi and g["prev"] != gens[gi - 1]["children"]:
+            return f"generation {gi}: the parents offered to _simulate are not the children of generation {gi-1}"
         if g["prev"] != g["prev_after"]:
             return f"generation {gi}: the parental population was modified while its children were simulated"
         if not g["calls_complete"]:
@@ -295,6 +305,10 @@ CHECK = Check(
         "C01.exec_mosaic",
         "C01.child_wf",
         "C01.source_individual",
+        "C01.copy_from_wf_parent",
+        "C01.sample_wf",
+        "C01.every_generation_wf",
+        "C01.no_label_invented",
         "C01.getSegmentOld_refuted",
     ],
     sections=[
@@ -314,7 +328,7 @@ CHECK = Check(
         ),
         Section(
             name="simulate_gt",
-            theorems=["C01.plan_tiles", "C01.exec_mosaic", "C01.child_wf", "C01.source_individual"],
+            theorems=["C01.plan_tiles", "C01.exec_mosaic", "C01.child_wf", "C01.source_individual", "C01.copy_from_wf_parent", "C01.sample_wf", "C01.every_generation_wf", "C01.no_label_invented"],
             gen=gen_sim,
             impl=impl_sim,
             model_req=model_req_sim,
@@ -324,7 +338,7 @@ CHECK = Check(
             nontrivial=nontrivial_sim,
             setup=setup,
             teardown=teardown,
-            rule="seeded random models (1-4 generation lines, 2-4 source populations, zero fractions, pulses), maps (1-4 chromosomes incl. X, 2-10 markers, flat and steep cM), optional --region, popsize 10-20; np.random as seen by sim_genotype, _simulate and get_segment are wrapped in-process, the recorded tapes are replayed into the Lean plan/exec model and every generation's population is compared tract by tract; non-trivial = some child has more than one tract on a chromosome",
+            rule="seeded random models (1-4 generation lines, 2-4 source populations, zero fractions, pulses), maps (1-4 chromosomes incl. X, 2-10 markers, flat and steep cM), optional --region, popsize 10-20; np.random as seen by sim_genotype, _simulate and get_segment are wrapped in-process, the recorded tapes are replayed into the Lean plan/exec model and every generation's population is compared tract by tract, once generation by generation from the real parents and once as a whole run inside the model (Plan.simulateAll, the function the generation invariant is proved about); non-trivial = some child has more than one tract on a chromosome",
         ),
     ],
     trusted=["numpy boolean masking and Python's sort turn the random matrix into the (chromosome, position)-sorted list of recombination markers (computed by the harness from the recorded draws)", "HaplotypeSegment getters"],
